@@ -119,6 +119,16 @@ def impl_items(ctx, ex):
             exp = norm(ex, src)
             if r["status"] != "ok" or not r.get("items") or r["items"][0]["canon"] != exp:
                 ctx.violation("B:C14:impl:%s" % src[:80], "impl item not re-emitted unchanged", {"layer": "B", "args": op, "item": src, "result": r, "expected": exp})
+    # recorded finding (two hunts): a mistake in the trait LIST itself (unknown trait) is answered before the macro knows which traits are
+    # derived: the helper attributes of the well-formed entries stay on the re-emitted item and cascade into "cannot find attribute" errors
+    src = "#[repr(C)] pub struct X { #[eq(key = $.len())] pub v: String, #[hash(ignore)] pub w: u8 }"
+    r = ex.attr("PartialEq, Eq, Hash, Serialize", src)
+    n += 1
+    want = norm(ex, "#[repr(C)] pub struct X { pub v: String, pub w: u8 }")
+    its = r.get("items") or []
+    if r["status"] != "ok" or len(its) < 2 or its[0]["canon"] != want:
+        ctx.violation("B:C14:unknown-trait-in-list:#[derive_ex(PartialEq, Eq, Hash, Serialize)] " + src, "one mistake in the trait list: the item is re-emitted with the helper attributes of the other (well-formed) entries still on it - each of them cascades into `cannot find attribute`",
+                      {"layer": "B", "args": "PartialEq, Eq, Hash, Serialize", "item": src, "expected_item": want, "got_item": its[0]["canon"] if its else None})
     # error paths of impl items: the impl - with every foreign attribute, in order - is still emitted next to the compile error
     body = "{ type Output = X; #[inline] fn add(self, rhs: X) -> X { X(self.0 + rhs.0) } }"
     for pre, sib, post, args in [("/// doc\n #[allow(unused)] ", "#[derive_ex]", " #[cfg(all())] ", "Add"), ("#[doc = \"a\"] ", "#[derive_ex = 1]", "", "Add"), ("", "#[derive_ex::derive_ex]", " #[allow(dead_code)] /// d\n ", "AddAssign"),
